@@ -1342,6 +1342,8 @@ def compile_source(source, opset=18, extra_globals=None):
     sys.modules[modname] = mod
     op = getattr(onnxscript, f"opset{opset}")
     mod.__dict__.update(script=script, FLOAT=FLOAT, DOUBLE=DOUBLE, INT64=INT64, INT32=INT32, BOOL=BOOL, op=op, onnxscript=onnxscript)
+    # module-level names that coincide with parameter names of the generated functions (legal Python: the parameter hides the global)
+    mod.__dict__.update(flag=True, flag2=False)
     if extra_globals:
         mod.__dict__.update(extra_globals)
     try:
